@@ -1,6 +1,10 @@
 package migration
 
 import (
+	"fmt"
+	"math/rand"
+	"sync"
+	"time"
 	"strings"
 	"testing"
 
@@ -82,6 +86,76 @@ func runF(op string, in M) (M, M) {
 			out["addr"] = vInts(d[:])
 		}
 		return out, factFor(candidate(t))
+	case "migration.par":
+		// Encode / Decode called by several goroutines at the same time, each with its own address, a corrupted spelling
+		// and a spelling with an invalid group in the checksum part: every call answers as it does alone
+		rr := vRandSeed(int64(vIntOf(in["seed"])))
+		const K = 8
+		type job struct {
+			a        [32]byte
+			s, c1, c2 string
+		}
+		jobs := make([]job, K)
+		for g := range jobs {
+			rr.Read(jobs[g].a[:])
+			s := string(Encode(jobs[g].a))
+			b := []byte(s)
+			b[1+rr.Intn(60)] = tryteAlphabet[rr.Intn(27)]
+			c := []byte(s)
+			c[len(c)-3], c[len(c)-2] = 'M', 'M'
+			jobs[g].s, jobs[g].c1, jobs[g].c2 = s, string(b), string(c)
+		}
+		msg := ""
+		var mu sync.Mutex
+		fail := func(m string) {
+			mu.Lock()
+			if msg == "" {
+				msg = m
+			}
+			mu.Unlock()
+		}
+		p := vCatch(func() {
+			var wg sync.WaitGroup
+			start := make(chan struct{})
+			deadline := time.Now().Add(time.Duration(vEnvInt("VERIF_PAR_MS", 1000)) * time.Millisecond)
+			for g := 0; g < K; g++ {
+				wg.Add(1)
+				go func(j job) {
+					defer wg.Done()
+					defer func() {
+						if r := recover(); r != nil {
+							fail(fmt.Sprint("verif: panic in a call made concurrently with other calls: ", r))
+						}
+					}()
+					_, e1 := Decode(j.c1)
+					<-start
+					for rep := 0; rep < 6 || time.Now().Before(deadline); rep++ {
+						if string(Encode(j.a)) != j.s {
+							fail("verif: Encode called concurrently with other calls gave a different string than alone")
+							return
+						}
+						if d, err := Decode(j.s); err != nil || d != j.a {
+							fail("verif: Decode of a valid string called concurrently with other calls failed or gave another address")
+							return
+						}
+						if _, err := Decode(j.c2); err == nil {
+							fail("verif: Decode accepted an invalid group in the checksum part when called concurrently with other calls")
+							return
+						}
+						if _, err := Decode(j.c1); (err == nil) != (e1 == nil) {
+							fail("verif: Decode of a corrupted string answers differently when called concurrently with other calls")
+							return
+						}
+					}
+				}(jobs[g])
+			}
+			close(start)
+			wg.Wait()
+		})
+		if p == "" {
+			p = msg
+		}
+		return M{"panic": p}, factFor(nil)
 	}
 	panic("unknown op " + op)
 }
@@ -105,6 +179,9 @@ func TestVerifDriver(t *testing.T) {
 	}
 	r := vRand(191)
 	n := vEnvInt("VERIF_N", 6)
+	if vEnvInt("VERIF_PAR_MS", 1000) > 0 {
+		defer func() { emit("migration.par", M{"seed": r.Intn(1 << 30)}) }()
+	}
 	for k := 0; k < n; k++ {
 		var a [32]byte
 		r.Read(a[:])
@@ -211,3 +288,5 @@ func TestVerifDriver(t *testing.T) {
 		}
 	}
 }
+
+func vRandSeed(seed int64) *rand.Rand { return rand.New(rand.NewSource(seed)) }
